@@ -71,6 +71,15 @@ CHECKS = {
             "Trusted: TLC, spec/Split.tla + NucsAbs!Solutions, harness/rec_split.py; the parts are enumerated by the "
             "real BacktrackSolver in its default configuration under a watchdog.",
             "TLC lemma on spec/Split.tla + TLA+ trace validation of recorded split calls (SplitTrace.tla)"),
+    "C13": ("model_checking", "spec/Rewrites.tla defines the meaning-preserving rewrites (unshare, permute constraints, permute "
+            "variables, duplicate, add an always-true constraint, translate) and TLC applies them to random problems and "
+            "to the shipped models built by their real constructors, proving the preservation lemma by brute force on "
+            "the small ones; the real (compiled) solver runs both models; TLC judges bag equality up to renaming and "
+            "equal optimum.",
+            "Trusted: TLC, spec/Rewrites.tla (+NucsAbs, Constraints), the real solver runs in harness/rec_rewrites.py; "
+            "runs beyond the watchdog or 6000 solutions are skipped.",
+            "TLC-computed model rewrites (spec/Rewrites.tla, lemma by brute force) + TLA+ judgement of the real "
+            "solver's results on both models"),
     "C14": ("model_checking", "Same corpus; TLC compares each output with the brute-force hull of the supports, checks "
             "failure exactly without support, idempotence of a second call, and affine_eq against the one-round "
             "interval operator AffineEqRound.", TRUST_CALLS, TECH_CALLS),
